@@ -74,3 +74,10 @@ Definition mstep (c : cfg) (m : mon) (o : srv_op) (r : srv_out) : verdict * mon 
 Definition monitor_from (c : cfg) (m : mon) (pos : nat) (tr : list (srv_op * srv_out)) : option (nat * nat) :=
   monitor_from_with judge c m pos tr.
 Definition monitor (c : cfg) (tr : list (srv_op * srv_out)) : option (nat * nat) := monitor_from c (minit c) O tr.
+
+(* the same judgement without the clause prepare_invokes_handler (the harness' handler call counters are not
+   compared): what holds of configurations WITH write handlers, see Properties_C07.v *)
+Definition judge_core (c : cfg) (a : astate) (o : srv_op) (x : expect) (r : srv_out) : verdict :=
+  judge c a o (match x with XVal g v _ => XVal g v None | _ => x end) r.
+Definition monitor_core (c : cfg) (tr : list (srv_op * srv_out)) : option (nat * nat) :=
+  monitor_from_with judge_core c (minit c) O tr.
